@@ -138,7 +138,7 @@ fn c15(a: &Args) {
     let mut col = Collector::new("C15", a);
     let th = a.thorough();
     let mut seen = HashSet::new();
-    let (bound, cap) = if th { (2usize, 400_000u64) } else { (1usize, 50_000u64) };
+    let (bound, cap) = if th { (2usize, 6_000_000u64) } else { (1usize, 50_000u64) };
     for (i, (label, items)) in corpus::items(th).iter().enumerate() {
         if !col.next_case("ast") {
             continue;
@@ -149,7 +149,16 @@ fn c15(a: &Args) {
         }
         // pairs of deviations only for documents with <= 40 choice points
         let toks = print_items(items);
-        let b = if bound == 2 && toks.len() > 24 { 1 } else { bound };
+        // thorough: all triples of deviations for documents of <= 24 tokens, all pairs beyond
+        let b = if th {
+            if toks.len() <= 24 {
+                3
+            } else {
+                2
+            }
+        } else {
+            bound
+        };
         check_doc(&mut col, &mut seen, &format!("ast#{}", i), &format!("{}[{}]", doc_kind(items), label), items, b, cap);
     }
     for (name, items) in corpus::keyword_prefixed() {
@@ -160,7 +169,7 @@ fn c15(a: &Args) {
             let toks = print_items(&items);
             col.sample(json!(layout(&toks, &mut |_| 0, &mut Vec::new())));
         }
-        check_doc(&mut col, &mut seen, &name, &doc_kind(&items), &items, if th { 1 } else { 0 }, cap);
+        check_doc(&mut col, &mut seen, &name, &doc_kind(&items), &items, if th { 2 } else { 0 }, cap);
     }
     col.finish(&a.out);
 }
@@ -321,9 +330,9 @@ fn c16(a: &Args) {
             }
         }
     }
-    // all strings of length <= 2 (3 thorough) over a 40-character alphabet
+    // all strings of length <= 2 (4 thorough) over a 40-character alphabet
     let alpha: Vec<char> = "abi18 \n\t{}()<>[]:,;=.-+'\"\\/*#_0xeE9ZÜ\u{0}\r|&".chars().collect();
-    let maxlen = if th { 3 } else { 2 };
+    let maxlen = if th { 4 } else { 2 };
     let mut idx = vec![0usize; 0];
     loop {
         let sstr: String = idx.iter().map(|i| alpha[*i]).collect();
